@@ -483,7 +483,8 @@ def _lb():
         c = flow_cfg(rng, marks=[interval, hto])
         c.update(strategy=rng.choice(LB_STRATS), nb=rng.randint(1, 4), svc=svc_times(rng, slow=hto),
                  interval=interval, hto=hto, hth=rng.randint(1, 2), uth=rng.randint(1, 3), hc=rng.random() < 0.7,
-                 real=rng.random() < 0.3, on_none=rng.choice(["reject", "queue"]))
+                 real=rng.random() < 0.3, on_none=rng.choice(["reject", "queue"]),
+                 weights=rng.choice([None, [rng.choice([1, 1, 2, 5, 100]) for _ in range(4)]]))
         return c
 
     def build(z, c):
@@ -499,6 +500,9 @@ def _lb():
             else:
                 backends.append(z.svc(f"be{i}", times))
         lb = z.add(LoadBalancer("lb", backends=backends, strategy=strat_of(c["strategy"]), on_no_backend=c.get("on_none", "reject")))
+        if c.get("weights"):
+            for b, w in zip(backends, c["weights"]):
+                lb.add_backend(b, weight=int(w))
         feed(z, c, lb, ctx_fn=lambda i: {"metadata": {"i": i, "client_ip": f"10.0.0.{i % 5}", "key": f"k{i % 7}"}})
         if c["hc"]:
             hc = z.add(HealthChecker("hc", load_balancer=lb, interval=check_num(c["interval"], 1e-6),
@@ -863,6 +867,19 @@ def _batch():
         pt = lat(rng, hi=0.1)
         c = flow_cfg(rng, marks=[to, pt])
         c.update(batch=rng.choice([1, 2, 3, 5]), pt=pt, timeout=to)
+        if rng.random() < 0.4:
+            # a batch that takes longer than the partial-batch timeout, a full batch at one instant and stragglers
+            # (fewer than a batch) arriving while it is being processed, early and late in the processing time
+            to = lat(rng, zero_p=0.0, hi=0.1)
+            pt = rel(rng, to, (1.5, 3.0, 6.0))
+            b = rng.choice([2, 3, 5])
+            t1 = rng.randrange(0, 10**9)
+            arr = [t1] * b
+            for _ in range(rng.randint(1, b - 1)):
+                arr.append(t1 + ns(pt * rng.choice([0.05, 0.2, 0.5, 0.9])))
+            if rng.random() < 0.5:
+                arr += [t1 + ns(pt * 4)] * rng.randint(1, b)
+            c.update(arr=sorted(arr), batch=b, pt=pt, timeout=to, tags=c["tags"] + ["straggler_during_batch"])
         return c
 
     def build(z, c):
@@ -1123,7 +1140,7 @@ def _jobs():
         jobs = []
         for i in range(rng.randint(1, 4)):
             jobs.append({"interval": rng.choice([0.0, tick, round(tick * 2.5, 6), lat(rng, zero_p=0.0, hi=0.5)]),
-                         "prio": rng.randint(0, 2), "deps": [j for j in range(i) if rng.random() < 0.4],
+                         "prio": rng.choice([-5, -1, 0, 0, 1, 2, 1000]), "deps": [j for j in range(i) if rng.random() < 0.4],
                          # a job that finishes in zero simulated time (every run), or a mix of durations
                          "svc": [0.0] if rng.random() < 0.35 else svc_times(rng, n=3)})
         return {"tick": tick, "jobs": jobs, "horizon": round(tick * rng.randint(5, 30), 6), "tags": []}
